@@ -564,6 +564,168 @@ def star_oracle(trial, info):
     return out
 
 
+# ---------------------------------------------------------------------------------------------- liveness of a general tree (OFProps/C06Tree.lean)
+# Topology treeTopo par: node 0 the source, node i >= 1 subscribed to ONE earlier node par[i-1]; any number of consumers per publisher; inner nodes are relays
+# that never answer `None` (FwdTree), leaves are arbitrary.  D = depth of the tree; vR(D, d) = rounds within which a node at depth d is served
+# (vR(D, 1) = 8 D, vR(D, d + 1) = vR(D, d) + 8 (D - d) - 1); treeRounds(D) = vR(D, D) = 4 D^2 + 3 D + 1.
+#   fair      treeRounds(D) (or twice as many) random fair rounds of ALL nodes, any clock steps (C06_net_tree_fair_heals / _heals_throughput)
+#   progress  treeProgress par t: round-robin, treeRounds(D) times, every send at the one clock reading t (C06_net_tree_progress)
+#   heal      a set `dead` of LEAVES makes no event any more, chosen from the REAL state after the prefix: nothing of theirs is queued at the real PULL socket of
+#             their parents (TNoDeadReq) and every inner node keeps a live consumer (hlive); then treeRounds(D) random fair rounds of the LIVE nodes at clock
+#             readings beyond t_last + time-out of the silent leaves in the REAL client tables of their parents (C06_net_tree_heals_after_silence)
+# The continuation is computed AFTER the prefix has run on the real objects and stored in the trial, so the model runs the very same events.
+
+def tree_par(topo): return [u[0] for u in topo['ups'][1:]]
+
+
+def tree_depths(par):
+    d = [0]
+    for p in par: d.append(d[p] + 1)
+    return d
+
+
+def w_rounds(k): return 4 * k + 2
+
+
+def v_rounds(D, d):
+    """`vR D d` of OFProps/C06TreeMeasure.lean"""
+    v = 0
+    for x in range(d):
+        v = (1 if x == 0 else v) + (w_rounds(D - x - 1) + 3) + w_rounds(D - x - 1)
+    return v
+
+
+def tree_rounds(D): return v_rounds(D, D)
+
+
+def gen_livetree_trial(rng, mode=None):
+    n = rng.choice([3, 3, 4, 4, 5, 5, 6])
+    shape = rng.random()
+    if shape < 0.25: par = [0, 1, 1, 2][:n - 1] + [rng.randint(0, i) for i in range(4, n - 1)]       # the relay 1 has two consumers, one of them a relay
+    else: par = [rng.randint(max(0, i - 2), i) if rng.random() < 0.6 else rng.randint(0, i) for i in range(n - 1)]
+    inner = set(par)
+    ups = [[]] + [[p] for p in par]
+    behs = [live_src(rng)] + [fwd_relay(rng, i) if i in inner else relay_any(rng, i) for i in range(1, n)]
+    topo = {'family': 'livetree', 'ups': ups, 'behs': behs, 'victim': n - 1}
+    pre, t = gen_prefix(rng, topo, gaps=rng.random() < 0.5)
+    mode = mode or rng.choice(['fair', 'fair', 'progress', 'heal', 'heal'])
+    return {'topo': topo, 'prefix': pre, 'stall': None, 'mode': mode, 'dead': [], 't0': t + rng.choice([0, 1, 100, 6000, 60000]),
+            'seed': rng.randrange(10**9), 'reps': rng.choice([1, 1, 1, 2])}
+
+
+def livetree_continuation(trial, rig):
+    """the continuation, computed from the REAL state after the prefix -> (events, sets every live node must be handed, round ends)"""
+    import random
+    rng = random.Random(trial['seed'])
+    topo = trial['topo']
+    par = tree_par(topo)
+    n = len(par) + 1
+    D = max(tree_depths(par))
+    R = tree_rounds(D)
+    t, mode, reps = trial['t0'], trial['mode'], trial['reps']
+    inner = set(par)
+    if mode == 'heal' and (not trial['dead'] or livetree_dead_queued(trial, rig)): mode = trial['mode'] = 'fair'; trial['dead'] = []
+    if mode == 'progress':
+        cont = []
+        for _ in range(R): cont += [x for i in range(n) for x in ({'k': 'recv', 'i': i}, {'k': 'send', 'i': i, 't': t})]
+        return cont, 1, [2 * n * (r + 1) for r in range(R)]
+    if mode == 'fair':
+        evs, ends = star_fair_rounds(rng, list(range(n)), R * reps, t, [0, 1, 50, 100, 100, 2500, 6000])
+        return evs, reps, ends
+    dead = trial['dead']
+    tl = [t]
+    for j in dead:
+        S = rig.nodes[par[j - 1]]['mq'].sender
+        tl += [c.t_last for c in S.clients.values() if c.client_id == netfeed.cid(j)]
+    t2 = max(tl) + CONN_TIMEOUT + 1 + rng.choice([0, 0, 1, 500])
+    live = [i for i in range(n) if i not in dead]
+    evs, ends = star_fair_rounds(rng, live, R * reps, t2, [0, 0, 1, 50, 100, 100, 2500, 6000])
+    return evs, reps, ends
+
+
+def livetree_dead_queued(trial, rig):
+    """is a request of a silent leaf queued at the REAL PULL socket of its parent?"""
+    par = tree_par(trial['topo'])
+    for j in trial['dead']:
+        S = rig.nodes[par[j - 1]]['mq'].sender
+        queued = [_req_of(m) for m in S.pulls[0].queue] if S is not None else []
+        if any(isinstance(r, dict) and r.get('cid') == netfeed.cid(j) for r in queued): return True
+    return False
+
+
+def livetree_choose_dead(trial):
+    """1-2 leaves that fall silent, such that every inner node keeps a live consumer"""
+    import random
+    rng = random.Random(trial['seed'] + 1)
+    par = tree_par(trial['topo'])
+    n = len(par) + 1
+    inner = set(par)
+    cand = [j for j in range(1, n) if j not in inner]
+    rng.shuffle(cand)
+    dead = []
+    for j in cand[:rng.randint(1, 2)]:
+        if any(c != j and c not in dead for c in range(1, n) if par[c - 1] == par[j - 1]): dead.append(j)
+    return sorted(dead)
+
+
+def run_livetree(trial):
+    """-> (per-event [(obs, snap)], info)   info: per node >= 1 the ids its REAL recv returned during the continuation and its prev_id before it; the number of
+    rounds of the continuation after which every live node had a new set (exploration)"""
+    logging.disable(logging.CRITICAL)
+    topo = trial['topo']
+    n = len(topo['ups'])
+    rig = netfeed.Rig(topo)
+    out = []
+    for idx, ev in enumerate(trial['prefix']):
+        o = rig.event(idx, ev)
+        out.append((o, rig.snap()))
+        if o['k'] == 'rcvd' and any(x['k'] == 'dup' for x in o['outs']):
+            rig.close()
+            trial['stall'] = trial['stall'] or []; trial['need'] = 0
+            return out, {'prev0': {}, 'returned': {}, 'done_at': None, 'rounds_needed': None}
+    if trial['stall'] is None:
+        if trial['mode'] == 'heal':
+            # the silent leaves stop now; up to 12 rounds of the live nodes (appended to the prefix) flush what they had queued at their parents
+            if not trial['dead']: trial['dead'] = livetree_choose_dead(trial)          # (a corpus trial names its silent leaves)
+            live0 = [i for i in range(n) if i not in trial['dead']]
+            for _ in range(12):
+                if not trial['dead'] or not livetree_dead_queued(trial, rig): break
+                for ev in [x for i in live0 for x in ({'k': 'recv', 'i': i}, {'k': 'send', 'i': i, 't': trial['t0']})]:
+                    o = rig.event(len(trial['prefix']), ev)
+                    trial['prefix'].append(ev); out.append((o, rig.snap()))
+        trial['stall'], trial['need'], trial['round_ends'] = livetree_continuation(trial, rig)
+    prev0 = {j: rig.nodes[j]['mq'].receiver.prev_id for j in range(1, n)}
+    rets = {j: [] for j in range(1, n)}
+    live = [j for j in range(1, n) if j not in trial['dead']]
+    done_at = None
+    npre = len(trial['prefix'])
+    for k, ev in enumerate(trial['stall']):
+        o = rig.event(npre + k, ev)
+        out.append((o, rig.snap()))
+        if o['k'] == 'rcvd' and any(x['k'] == 'dup' for x in o['outs']): break
+        if ev['k'] == 'recv' and ev['i'] >= 1 and o['k'] == 'rcvd' and o['id'] is not None: rets[ev['i']].append(o['id'])
+        if done_at is None and live and all(any(x > prev0[j] for x in rets[j]) for j in live): done_at = k + 1
+    rig.close()
+    ends = trial.get('round_ends')
+    rounds_needed = None if done_at is None or not ends else next((r + 1 for r, e in enumerate(ends) if e >= done_at), None)
+    return out, {'prev0': prev0, 'returned': rets, 'done_at': done_at, 'rounds_needed': rounds_needed}
+
+
+def livetree_oracle(trial, info):
+    par = tree_par(trial['topo'])
+    n = len(par) + 1
+    D = max(tree_depths(par))
+    out = []
+    for j in range(1, n):
+        if j in trial['dead'] or j not in info['prev0']: continue
+        new = [x for x in info['returned'][j] if x > info['prev0'][j]]
+        if len(new) < trial.get('need', 1):
+            out.append(('net-tree-no-progress', f"tree par={par} (depth {D}, silent leaves: {trial['dead']}): after the {trial['mode']} continuation ({len(trial['stall'])} events = "
+                        f"{trial.get('need', 1)} x {tree_rounds(D)} rounds) the recv of the live node {j} returned {new} above its prev_id {info['prev0'][j]} "
+                        f"(expected at least {trial.get('need', 1)} new frame set(s))"))
+    return out
+
+
 # ---------------------------------------------------------------------------------------------- a chain heals after restarts (OFProps/C06ChainRestart.lean)
 # Topology chainTopo 3: source 0 -> relay 1 -> sink 2; the source always returns one frame on topic `main`, the relay forwards the set it got as one `main`
 # frame (dict, lone Frame or a callable giving one of those).  Trial = a random reachable prefix WITH restarts (recv i | send i @t | restart i graceful / crash,
